@@ -322,6 +322,10 @@ class Impl:
         d = hashlib.new(from_name, data).hexdigest()
         if ck == "b":
             d = ("0" if d[0] != "0" else "1") + d[1:]
+        if ck == "x":
+            # a wrong checksum that is the true digest of ANOTHER content (a client mixing up two files)
+            other = (real or {}).get("other_data") or (data + b"?")
+            d = hashlib.new(from_name, other).hexdigest()
         if (real or {}).get("case") == "upper":
             d = d.upper()
         return d, algo
@@ -358,7 +362,7 @@ class Impl:
                     real["algo"] = "SHA-256" if c["pre"] else "sha3_256"
                 digests = {a: hashlib.new(a, data).hexdigest() for a in ("md5", "sha1", "sha256", "sha384", "sha512")}
                 om = self.ObjectMetadata(None, cid, len(data), digests)
-                chk, alg = self.checksum_args("o" if c["ok"] else "b", data, real)
+                chk, alg = self.checksum_args("o" if c["ok"] else ("x" if real.get("other_data") else "b"), data, real)
                 size = {"n": None, "o": len(data), "b": len(data) + 1}[c.get("sz", "n")]
                 hs.delete_if_invalid_object(om, chk, alg, size)
                 return "ok:unit"
@@ -445,7 +449,7 @@ def token_line(c):
     if op == "so":
         return "so %s %s %d %d %s %s" % ("-" if c["p"] is None else c["p"], c.get("s", "p"), c["b"], c["n"],
                                          c.get("sz", "n") if c["p"] is not None else "n",
-                                         c.get("ck", "n") if c["p"] is not None else "n")
+                                         (c.get("ck", "n") if c["p"] is not None else "n").replace("x", "b"))
     if op == "tag":
         return "tag %d %d" % (c["p"], c["c"])
     if op == "del":
